@@ -59,8 +59,10 @@ def gen_case(rng, idx):
 
 
 def gen_mps_case(rng, idx):
-    if idx % 2:
+    if idx % 3 == 1:
         return dict(kind='mpo', seed=rng.randrange(1 << 30), nderive=6)
+    if idx % 3 == 2:
+        return dict(kind='net', seed=rng.randrange(1 << 30), nderive=5)
     return dict(kind='mps', seed=rng.randrange(1 << 30), L=rng.choice([2, 3, 4]), ntrafo=5)
 
 
@@ -136,7 +138,8 @@ def first_diff(a, b, path=''):
 
 
 INPLACE_OPS = ('iadd_prefactor_other', 'iscale_prefactor', 'itranspose', 'iswapaxes', 'iscale_axis', 'iproject',
-               'ipurge_zeros', 'iconj', 'ibinary_blockwise', 'ireplace_label')
+               'ipurge_zeros', 'iconj', 'ibinary_blockwise', 'ireplace_label', 'ireplace_labels', 'iset_leg_labels',
+               'idrop_labels')
 
 
 def nontrivial(r):
@@ -188,7 +191,7 @@ def evaluate(ctx, cases, use_model=True, configs=('cy', 'py')):
         ref = runs[configs[0]]['results'][i]
         if 'died' in ref or 'crash' in ref:
             ref = runs[configs[-1]]['results'][i]
-        res.note_case(case, nontrivial(ref) or case.get('kind') in ('mps', 'mpo'))
+        res.note_case(case, nontrivial(ref) or case.get('kind') in ('mps', 'mpo', 'net'))
         res.count('kind=' + case.get('kind', 'hist'))
         for o in ref.get('ops', []):
             res.count('op=' + o)
@@ -293,15 +296,19 @@ def cases_for(ctx, tag, n_hist, n_mps):
 def run(ctx):
     res = core.Result()
     if ctx.quick:
-        cases = load_corpus() + cases_for(ctx, 'main', 1500, 48)
+        cases = load_corpus() + cases_for(ctx, 'main', 1500, 72)
     else:
-        cases = load_corpus() + cases_for(ctx, 'main', 16000, 400)
+        cases = load_corpus() + cases_for(ctx, 'main', 16000, 600)
     res.merge(evaluate(ctx, cases))
     ops = {k[3:]: v for k, v in res.hist.items() if k.startswith('op=')}
     res.extra['operations_exercised'] = len(ops)
     res.extra['inplace_steps'] = sum(v for k, v in ops.items() if k in INPLACE_OPS or k.startswith('setitem'))
     res.extra['rejected_steps'] = sum(v for k, v in ops.items() if k.startswith('rejected'))
     res.extra['kernel_configurations'] = ['cy (fresh compiled build)', 'py (TENPY_NO_CYTHON=1)']
+    res.extra['anchor_coverage_note'] = (
+        '2026-09-26, quick tier seed 0, pure-Python kernel, line+branch coverage of the anchored files measured outside the check: '
+        'np_conserved.py 71% -> 80%, charges.py 65% -> 68%, mpo.py 39% -> 74%, mps.py 30% -> 63%, total 47% -> 71%; unexercised: hdf5 '
+        'I/O, DipolarChargeInfo / shift_charges, InitialStateBuilder, algorithm internals (see notes/C03.md, Coverage round)')
     return res
 
 
